@@ -13,6 +13,7 @@ import shutil
 from pathlib import Path
 
 import core
+import workflow
 import projmodel
 from props import c06
 
@@ -242,8 +243,11 @@ def run(ctx: core.Ctx) -> int:
                 r["detail"] = json.loads(r["detail"])
             except ValueError:
                 pass
+    # Workflow.tla: lint-file interleaved with the modifying commands: its exit status is the verdict on the named files
+    wf = workflow.stage(ctx, ("C13.", "crash"))
     return ctx.finish(
-        evaluations=n_inv,
+        mc_violations=wf["mc_violations"],
+        evaluations=n_inv + len(wf["events"]),
         distinct_nontrivial=len({e["label"] for e in events if e.get("exits", {}).get("json") == 1}),
         rule="project states from Lint.tla (all per-file information states x all subsets of inventory defects; quick: a "
              "seeded sample of 500) and TLC-sampled Inventory projects, names with blanks / non-ASCII; per state: lint in "
